@@ -550,7 +550,11 @@ fn run_recv<T: Probe + ?Sized>(args: &[&str], is_async: bool) -> Result<String, 
     if args.len() != 4 {
         return Err(format!("recv needs 4 arguments, got {}", args.len()));
     }
-    let max = parse_usize(args[0], "max_msg_len")?;
+    // `c<n>`: a receiver over `IoBuffer::new(pipe, n, ALIGN)`; otherwise `Receiver::io(pipe, max_msg_len)`
+    let max = match args[0].strip_prefix('c') {
+        Some(c) => Cap::Exact(parse_usize(c, "capacity")?),
+        None => Cap::MaxMsgLen(parse_usize(args[0], "max_msg_len")?),
+    };
     let stream = hex_to_bytes(args[1]);
     let script = parse_script(args[2], 'd', is_async)?;
     let nrecv = parse_usize(args[3], "nrecv")?;
@@ -558,8 +562,14 @@ fn run_recv<T: Probe + ?Sized>(args: &[&str], is_async: bool) -> Result<String, 
     Ok(recv_case::<T>(max, stream, script, nrecv, limit, is_async))
 }
 
+#[derive(Clone, Copy)]
+pub enum Cap {
+    MaxMsgLen(usize),
+    Exact(usize),
+}
+
 fn recv_case<T: Probe + ?Sized>(
-    max: usize,
+    max: Cap,
     stream: Vec<u8>,
     script: VecDeque<Dir>,
     nrecv: usize,
@@ -571,7 +581,10 @@ fn recv_case<T: Probe + ?Sized>(
     let mut outs: Vec<String> = Vec::new();
 
     if !is_async {
-        match catch_unwind(AssertUnwindSafe(|| Receiver::<T, _>::io(ScriptedRead(st.clone()), max))) {
+        match catch_unwind(AssertUnwindSafe(|| match max {
+            Cap::MaxMsgLen(m) => Receiver::<T, _>::io(ScriptedRead(st.clone()), m),
+            Cap::Exact(c) => Receiver::<T, _>::new(flatty_io::IoBuffer::new(ScriptedRead(st.clone()), c, <T as flatty::traits::FlatBase>::ALIGN)),
+        })) {
             Err(_) => outs.push("panic".into()),
             Ok(mut receiver) => {
                 for _ in 0..nrecv {
@@ -611,7 +624,12 @@ fn recv_case<T: Probe + ?Sized>(
         let calls = st.borrow().calls;
         format!("r={} calls={}", outs.join(";"), calls)
     } else {
-        match catch_unwind(AssertUnwindSafe(|| AsyncReceiver::<T, _>::io(ScriptedAsyncRead(st.clone()), max))) {
+        match catch_unwind(AssertUnwindSafe(|| match max {
+            Cap::MaxMsgLen(m) => AsyncReceiver::<T, _>::io(ScriptedAsyncRead(st.clone()), m),
+            Cap::Exact(c) => {
+                AsyncReceiver::<T, _>::new(flatty_io::IoBuffer::new(ScriptedAsyncRead(st.clone()), c, <T as flatty::traits::FlatBase>::ALIGN))
+            }
+        })) {
             Err(_) => outs.push("panic".into()),
             Ok(mut receiver) => {
                 for _ in 0..nrecv {
@@ -1209,16 +1227,16 @@ mod tests {
         quiet();
         let d1: VecDeque<Dir> = (0..8).map(|_| Dir::Data(1)).collect();
         assert_eq!(
-            recv_case::<TMsg>(8, hex_to_bytes(TWO), d1.clone(), 3, 2, false),
+            recv_case::<TMsg>(Cap::MaxMsgLen(8), hex_to_bytes(TWO), d1.clone(), 3, 2, false),
             "r=hang calls=3"
         );
         assert_eq!(
-            recv_case::<TMsg>(8, hex_to_bytes(TWO), d1.clone(), 3, 2, true),
+            recv_case::<TMsg>(Cap::MaxMsgLen(8), hex_to_bytes(TWO), d1.clone(), 3, 2, true),
             "r=hang calls=3 polls=1"
         );
         let p: VecDeque<Dir> = (0..8).map(|_| Dir::Pending).collect();
         assert_eq!(
-            recv_case::<TMsg>(8, hex_to_bytes(TWO), p.clone(), 3, 2, true),
+            recv_case::<TMsg>(Cap::MaxMsgLen(8), hex_to_bytes(TWO), p.clone(), 3, 2, true),
             "r=hang calls=2 polls=2"
         );
         let sp = specs("| (seq (i 1) (i 2)) | (seq (i 3) (i 4))");
